@@ -918,7 +918,25 @@ def xrender(f, n, all_locals=False):
     return render(expand_locals(f, n, 0, all_locals))
 
 
-def norm_facts(f, n, loop_conditions=True, all_locals=False):
+def canon_rel(t_op_u, pol):
+    """(text, pol) of a relational atom in canonical form: only `<` and `==` remain, operands of `==` ordered"""
+    a, op, b = t_op_u
+    if op == ">=":
+        return ("%s<%s" % (a, b), not pol)
+    if op == ">":
+        return ("%s<%s" % (b, a), pol)
+    if op == "<=":
+        return ("%s<%s" % (b, a), not pol)
+    if op == "<":
+        return ("%s<%s" % (a, b), pol)
+    if op == "!=":
+        x, y = sorted([a, b])
+        return ("%s==%s" % (x, y), not pol)
+    x, y = sorted([a, b])
+    return ("%s==%s" % (x, y), pol)
+
+
+def norm_facts(f, n, loop_conditions=True, all_locals=False, canon=False):
     """branch facts at n as a sorted list of (text, polarity): stable locals expanded, `!` folded into the polarity,
     true conjunctions and false disjunctions split into their atoms (white space removed from the text)"""
     out = []
@@ -934,6 +952,9 @@ def norm_facts(f, n, loop_conditions=True, all_locals=False):
             add(kids(c)[0], pol)
             add(kids(c)[1], pol)
             return
+        if canon and c["k"] == "BinaryOperator" and c.get("op") in ("<", "<=", ">", ">=", "==", "!="):
+            out.append(canon_rel((render(kids(c)[0]).replace(" ", ""), c["op"], render(kids(c)[1]).replace(" ", "")), pol))
+            return
         out.append((render(c).replace(" ", ""), pol))
     for cid, pol in f.cfg.facts_at(n):
         if not loop_conditions:
@@ -944,3 +965,26 @@ def norm_facts(f, n, loop_conditions=True, all_locals=False):
                 continue
         add(expand_locals(f, f.nodes[cid], 0, all_locals), pol)
     return sorted(set(out))
+
+
+def reach_calls(F, f, want, depth=2):
+    """calls satisfying want(call) that f executes itself or through helpers whose bodies are exported.
+    Yields (anchor, call, resolve): anchor is the call node in f (the call itself or the helper call leading to
+    it), resolve(expr) rewrites an argument expression of `call` into f's terms (helper parameters replaced by
+    the arguments f passes)."""
+    by_id = getattr(F, "_by_id", {})
+    for c in f.walk():
+        if c["k"] not in ("CallExpr", "CXXMemberCallExpr", "CXXConstructExpr", "CXXOperatorCallExpr"):
+            continue
+        if want(c):
+            yield c, c, (lambda e: e)
+            continue
+        g = by_id.get(c.get("calleeId"))
+        if g is None or g is f or depth <= 0 or g.cfg is None:
+            continue
+        args = call_args(c) if c["k"] != "CXXConstructExpr" else kids(c)
+        if c["k"] == "CXXOperatorCallExpr" and c.get("op") == "()":
+            args = kids(c)[2:]               # lambda call: callee object first
+        binding = {p["declId"]: strip(a) for p, a in zip(g.params, args)}
+        for _, c2, res2 in reach_calls(F, g, want, depth - 1):
+            yield c, c2, (lambda e, res2=res2, binding=binding: _subst_params(res2(e), binding))
